@@ -51,7 +51,7 @@ theorem C17gen_{pkg}_sh_{tag} (mS : Ex q → List UInt8) (mG : Ex q → List UIn
   apply fp_pairingCheck_congr
   simp [ArgPairing.dot, shFolded, shGz, shRi, interpolate, lagrange, vanishing, mulLin, ztMinusSi, evalP, sumP, sumN, scaleP, subP, addP,
     npow, cast_fp_inv q h2, cast_fp_sub, (by decide : List.range 2 = [0, 1]), (by decide : List.range 1 = [0]),
-    -mul_eq_mul_right_iff, -mul_eq_mul_left_iff, -mul_eq_zero, -mul_eq_mul_right_iff, -add_left_inj, -add_right_inj, -sub_left_inj,
+    -mul_eq_mul_right_iff, -mul_eq_mul_left_iff, -mul_eq_zero, -add_left_inj, -add_right_inj, -sub_left_inj,
     -sub_right_inj]
   try ring
 
@@ -67,6 +67,32 @@ theorem C17gen_{pkg}_sh_{tag}_binding {{G G2 S L : Type}} [AddCommGroup G] [Fiel
       = {ns}.BatchVerify_{tag} toInt mS mG fsC frB pcf {allv} q0 q1 g1 lines := by
   simp only [{ns}.BatchVerify_{tag}, hg, hz]
 """
+    # abstract level
+    S = "(ofField S)"
+    pts = "[" + ", ".join("[" + ", ".join(l) + "]" for l in xs) + "]"
+    vals = "[" + ", ".join("[" + ", ".join(l) + "]" for l in vs) + "]"
+    gz = lambda i: f"shGz {S} {pts} γ z {i}"
+    comb = " + ".join(f"toInt ({gz(i)}) • d{i}" for i in range(k))
+    names.append(f"C17gen_{pkg}_sh_{tag}_abstract")
+    text += f"""
+/-- abstract level, shape {sh}: over ANY commutative group `G` and field `S` the Go text returns nil iff the pairing check holds of
+`−(Σᵢ [γⁱ·Z_(T∖Sᵢ)(z)]Cᵢ − [Σᵢ γⁱ·Z_(T∖Sᵢ)(z)·rᵢ(z)]G₁ − [Z_T(z)]W + [z]W')` and `W'` (the scalars written with the polynomial functions of
+Model/ArgPairing.lean over the field itself), γ and z being the two transcript challenges -/
+theorem C17gen_{pkg}_sh_{tag}_abstract {{G G2 S L : Type}} [AddCommGroup G] [Field S] [DecidableEq S] [BEq G2] (toInt : S → Int)
+    (mS : S → List UInt8) (mG : G → List UInt8) (fsC : String → List (List UInt8) → List (List UInt8) → List UInt8)
+    (frB : List UInt8 → S) (pcf : List G → L → Bool) (W W' : G) ({" ".join(flat(vs))} : S) ({" ".join(ds)} : G) ({" ".join(flat(xs))} : S)
+    (q0 q1 : G2) (g1 : G) (lines : L) (γ z : S) (hγ : γ = frB ({gam})) (hz : z = frB (fsC "z" [mG W] [{gam}])) :
+    {ns}.BatchVerify_{tag} toInt mS mG fsC frB pcf {allv} q0 q1 g1 lines = Res.ok ↔
+      pcf [-({comb}
+            - toInt (sumN {S} (fun i => shGz {S} {pts} γ z i * evalP {S} (shRi {S} {pts} {vals} i) z) {k}) • g1
+            - toInt (evalP {S} (vanishing {S} [{", ".join(flat(xs))}]) z) • W + toInt z • W'), W'] lines = true := by
+  subst hγ hz
+  simp only [{ns}.BatchVerify_{tag}, verdict_ok_iff]
+  refine iff_of_eq (congrArg (fun t => pcf [-t, W'] lines = true) ?_)
+  simp [shGz, shRi, interpolate, lagrange, vanishing, mulLin, ztMinusSi, evalP, sumP, sumN, scaleP, subP, addP, npow,
+    -mul_eq_mul_right_iff, -mul_eq_mul_left_iff, -mul_eq_zero, -add_left_inj, -add_right_inj, -sub_left_inj, -sub_right_inj]
+  try ring_nf
+"""
     return names, text
 
 
@@ -80,6 +106,7 @@ def pkg_file(pkg):
 import GnarkVerif.Gen.Verifier.Shplonk_{pkg}
 import Mathlib.Tactic.Ring
 import Mathlib.Tactic.FieldSimp
+import Mathlib.Tactic.Abel
 /-
 C17 (SHPLONK), tie T for ecc/{pkg.replace("_", "-")}/shplonk/shplonk.go: `BatchVerify` as REGENERATED from the Go text, specialised to
 (number of polynomials, points per polynomial) ∈ {{(1,[1]), (1,[2]), (2,[1,1]), (2,[2,1]), (2,[2,2])}} (Gen/Verifier/Shplonk_{pkg}.lean).
@@ -94,6 +121,10 @@ set_option linter.unreachableTactic false
 open GV GV.Alg GV.KZG GV.Gen.Verifier GV.VerifierGen GV.ArgPairing
 namespace GV.C17gen
 variable (q : ℕ) [Fact q.Prime]
+
+omit [Fact q.Prime] in
+theorem verdict_ok_iff (b : Bool) (e : String) : (if (!b) = true then Res.err e else Res.ok) = Res.ok ↔ b = true := by
+  cases b <;> simp
 
 """ + "\n".join(T) + "\nend GV.C17gen\n"
     open(os.path.join(PROPS, f"C17_gen_sh_{pkg}.lean"), "w").write(body)
